@@ -716,10 +716,12 @@ class Unit:
     def emit(self, frag, prefix="", suffix=""):
         if prefix:
             self.raw(prefix, "glue")
+            self.chunks[-1][2]["owner"] = frag      # hand-written header of a region: belongs to that region
         self.chunks.append(("frag", frag, {}))
         self.frags.append(frag)
         if suffix:
             self.raw(suffix, "glue")
+            self.chunks[-1][2]["owner"] = frag      # ... and so does its hand-written tail
         return frag
 
     def build(self, canaries=False):
